@@ -65,6 +65,11 @@ PURE = [
     # nayin, xun, empty branches <- the pair
     ([DG, DZ], ["GetDayNaYin", "GetDayXun", "GetDayXunKong", "GetDayInGanZhi", "GetDayChongDesc", "GetDayPositionTai", "GetDayLu"]),
     ([MG, MZ], ["GetMonthNaYin", "GetMonthXun", "GetMonthXunKong", "GetMonthInGanZhi"]),
+    ([DGX, DZX], ["GetDayXunExact", "GetDayXunKongExact", "GetDayInGanZhiExact", "GetDayGanExact", "GetDayZhiExact"]),
+    (["dayGanIndexExact2", "dayZhiIndexExact2"], ["GetDayXunExact2", "GetDayXunKongExact2", "GetDayInGanZhiExact2", "GetDayGanExact2", "GetDayZhiExact2"]),
+    (["monthGanIndexExact", "monthZhiIndexExact"], ["GetMonthXunExact", "GetMonthXunKongExact", "GetMonthInGanZhiExact", "GetMonthGanExact", "GetMonthZhiExact"]),
+    (["yearGanIndexExact", "yearZhiIndexExact"], ["GetYearXunExact", "GetYearXunKongExact", "GetYearInGanZhiExact", "GetYearGanExact", "GetYearZhiExact", "GetYearShengXiaoExact"]),
+    (["yearGanIndexByLiChun", "yearZhiIndexByLiChun"], ["GetYearXunByLiChun", "GetYearXunKongByLiChun", "GetYearInGanZhiByLiChun", "GetYearGanByLiChun", "GetYearZhiByLiChun", "GetYearShengXiaoByLiChun"]),
     (["yearGanIndex", "yearZhiIndex"], ["GetYearNaYin", "GetYearXun", "GetYearXunKong", "GetYearInGanZhi", "GetYearShengXiao"]),
     # duty god, heavenly spirit <- month branch, day branch
     ([MZ, DZ], ["GetZhiXing", "GetDayTianShen", "GetDayTianShenType", "GetDayTianShenLuck"]),
